@@ -216,6 +216,10 @@ class Prop(common.PropertyCheck):
         yield {'k': 'combo', 'no_table': True, 'rows': [dict(first, beads='BI2'), first, dict(first, units={'FL1': 'RFI', 'FL2': None, 'FL3': 'MEF'}, beads='B1b')]}
         plain = {'file': 's1.fcs', 'units': {'FL1': 'RFI', 'FL2': 'a.u.', 'FL3': 'Channel'}, 'gate': 'ok'}
         yield {'k': 'combo', 'rows': [dict(plain, beads=b) for b in ('BFAIL', 'BNOMEF', 'BI2', 'B1')] + [dict(plain, file='n380.fcs', beads='B1'), dict(plain, file='n399.fcs', beads='B1'), dict(plain, file='n400.fcs', beads='B1')]}
+        # units cells padded with blanks ('MEF ', ' mef') on rows whose beads were acquired with other settings / on another instrument: the documented faults
+        yield {'k': 'combo', 'rows': [first, dict(first, file='volt.fcs', units={'FL1': 'MEF ', 'FL2': None, 'FL3': None}), dict(first, beads='BI2', units={'FL1': ' mef', 'FL2': None, 'FL3': None}),
+                                      dict(first, file='lin.fcs', units={'FL1': ' MEF ', 'FL2': 'a.u. ', 'FL3': None}), dict(first, beads='BFAIL', units={'FL1': 'Mef  ', 'FL2': None, 'FL3': None}),
+                                      dict(first, units={'FL1': ' MEF', 'FL2': None, 'FL3': None})]}
         # tables in which every row fails (there is nothing to report, the batch still completes)
         for rows in (['file_not_found'], ['units', 'gate_fraction'], ['too_few_events', 'file_not_found', 'beads_failed']):
             yield {'k': 'table', 'rows': rows}
@@ -241,7 +245,13 @@ class Prop(common.PropertyCheck):
         return s.single_cache[idx]
 
     def run_impl(self, case):
-        s = self.setup()
+        try:
+            s = self.setup()
+        except Exception as e:
+            # the beads table of the fixture (healthy rows of two instruments with different clustering channels, a row without MEF values, a row whose
+            # file is missing) is itself a batch: a failing row is reported in its place, the batch completes
+            import traceback
+            return {'aborted': 'processing the beads table of the fixture: ' + type(e).__name__ + ':' + str(e)[:100], 'tb': traceback.format_exc()[-300:]}
         try:
             if case['k'] == 'empty':
                 st = excelgen.table([], columns=['Instrument ID', 'Beads ID', 'File Path', 'Gate Fraction', 'FL1 Units'])
@@ -463,7 +473,7 @@ class Prop(common.PropertyCheck):
                 facts = row_facts(r)
                 nt = bool(case.get('no_table'))       # without the beads table only the availability of a function and of a curve can be checked
                 healthy = facts['file_found'] and facts['n_events'] >= 400 and facts['gate_ok'] and all(
-                    c['units'].lower() in ('channel', 'rfi', 'a.u.', 'au') or (c['units'].lower() == 'mef' and c['fxn'] and c['has_mef'] and
+                    c['units'].strip().lower() in ('channel', 'rfi', 'a.u.', 'au') or (c['units'].strip().lower() == 'mef' and c['fxn'] and c['has_mef'] and
                                                                                 (nt or (c['same_inst'] and c['amp'] and c['volt']))) for c in facts['channels'])
                 if healthy and f != 'none':
                     return 'healthy row %d (%s) reported %s' % (i, r, f)
